@@ -1,0 +1,13 @@
+//go:build verif
+
+package processor
+
+// Hooks for the runtime monitors in /verif (compiled only with -tags verif).
+
+import "github.com/alephium/wormhole-fork/node/pkg/vaa"
+
+// VerifVAA returns the VAA carried by a queued message.
+func (m *Message) VerifVAA() *vaa.VAA { return m.vaa }
+
+// VerifSerialized returns the serialized VAA carried by a queued message.
+func (m *Message) VerifSerialized() []byte { return m.serialized }
